@@ -36,7 +36,7 @@ InitSt == [vars |-> <<>>, stopped |-> FALSE, skip |-> FALSE, advance |-> 0, vali
            matchCount |-> 0, curMatch |-> 0, scanCount |-> 0, printed |-> <<>>, frozen |-> FALSE,
            memo |-> <<>>, cur |-> 0, built |-> FALSE, onceDone |-> {},
            line |-> <<>>, headers |-> <<>>, limit |-> <<>>, appended |-> {}, sig |-> NoSig,
-           errors |-> <<>>, errPrinted |-> 0, pending |-> 0, raised |-> FALSE]
+           errors |-> <<>>, errPrinted |-> 0, pending |-> 0, raised |-> FALSE, unwind |-> FALSE]
 \* The Matcher is built (and the match part validated) the first time a line reaches matches();
 \* counter.name() initialises its variable to 0 at that point (Counter.check_valid).
 RECURSIVE SetIfNone(_, _)
